@@ -34,3 +34,12 @@ Fixpoint toy_out (acc : N) (j : nat) (n : nat) : bytes :=
 Definition toy_mac (n : nat) (k d : bytes) : bytes :=
   let acc := toy_acc k d in
   firstn n (be_encode 4 acc ++ toy_out acc 0 (n - 4)).
+
+Lemma toy_dec_from_length k iv i c : length (toy_dec_from k iv i c) = length c.
+Proof. revert i; induction c as [|b c IH]; intros i; cbn; [reflexivity | rewrite IH; reflexivity]. Qed.
+Lemma toy_enc_from_length k iv i c : length (toy_enc_from k iv i c) = length c.
+Proof. revert i; induction c as [|b c IH]; intros i; cbn; [reflexivity | rewrite IH; reflexivity]. Qed.
+Lemma toy_dec_length k iv c : length (toy_dec k iv c) = length c.
+Proof. apply toy_dec_from_length. Qed.
+Lemma toy_enc_length k iv c : length (toy_enc k iv c) = length c.
+Proof. apply toy_enc_from_length. Qed.
